@@ -5,6 +5,7 @@ CONSTANTS Operands <- OperandsE
  LongOperands <- OperandsB
  LongOps <- OpsLongQ
  LongPres <- PresNone
+ GoRemainder = FALSE
  Emit = TRUE
 SPECIFICATION Spec
 INVARIANTS CheckAndEmit
